@@ -5,10 +5,19 @@
    Isolation: defining / extending / redefining a rule in class c leaves every rule object of every
    other class and every existing definition object untouched, PROVIDED the name does not resolve to a
    base-class object.  Without that proviso the claim is FALSE (C10_refuted): Rule.get falls back to the
-   base class, so defining DIGIT in a subclass rebinds the core rule DIGIT. *)
+   base class, so defining DIGIT in a subclass rebinds the core rule DIGIT.
+   BEHAVIOUR AND HISTORIES (IsolateBehave.v): along ANY history of operations of a class c (create, load_grammar, setting
+   the first-match flag of an own rule, exclude_rule), every rule of every class set S that does not contain c and is
+   closed under reference — the core rules, the library's ABNF reader — gives identical lparse / parse / parse_all
+   results (trees included) before and after, for every oracle, fuel, string and offset, PROVIDED each step passes a
+   boolean guard: no defined name clashes with a core name (when the core class is in S), a flagged rule's definition
+   is not shared with a rule of S, an exclusion is attached to a rule outside S.  Each guard is necessary: without the
+   first the behaviour of core DIGIT changes (C10_isolation_without_guard_refuted, a string exhibited in the kernel);
+   the second is the import-sharing finding (LoadSharp).  The property as stated — without guards — is false of the
+   library; the two known findings of C10 are exactly the two guards. *)
 From Coq Require Import List NArith.
 Import ListNotations.
-From ABNF Require Import Base Engine AbnfRead Registry RegistryProps.
+From ABNF Require Import Base Engine AbnfRead Registry RegistryProps Loader Bundled LoadBehave IsolateBehave.
 
 Theorem C10_lookup_case : forall R c n1 n2, fold_name n1 = fold_name n2 -> rget R c n1 = rget R c n2.
 Proof. exact rget_case. Qed.
@@ -35,3 +44,36 @@ Theorem C10_refuted : exists c a R R' j o o', c <> 0%N /\ define_rule c a R = So
   nth_error (objs R) j = Some o /\ ocls o = 0%N /\ nth_error (objs R') j = Some o' /\ odef o' <> odef o.
 Proof. exact define_rule_refuted. Qed.
 Print Assumptions C10_refuted.
+
+(* ---- behaviour, along any history, under the guards ------------------------------------------------------------- *)
+Theorem C10_partial_history_behaviour : forall S c ops R R',
+  run_ops c ops R = Some R' -> reg_ok R -> inS S c = false -> closedb R S = true -> guardsb S c ops R = true ->
+  (forall k o, nth_error (objs R) k = Some o -> inS S (ocls o) = true -> same_beh R R' k) /\
+  closedb R' S = true /\ reg_ok R'.
+Proof. exact run_ops_behaviour. Qed.
+Print Assumptions C10_partial_history_behaviour.
+
+Theorem C10_partial_core_rules_unchanged : forall c ops R R', c <> 0%N ->
+  run_ops c ops R = Some R' -> reg_ok R -> closedb R [0%N] = true -> guardsb [0%N] c ops R = true ->
+  forall k o, nth_error (objs R) k = Some o -> ocls o = 0%N -> same_beh R R' k.
+Proof. exact run_ops_core. Qed.
+Print Assumptions C10_partial_core_rules_unchanged.
+
+Theorem C10_partial_reader_unchanged : forall c ops R R', (2 <= c)%N ->
+  run_ops c ops R = Some R' -> reg_ok R -> closedb R [0%N; 1%N] = true -> guardsb [0%N; 1%N] c ops R = true ->
+  forall k o, nth_error (objs R) k = Some o -> (ocls o = 0%N \/ ocls o = 1%N) -> same_beh R R' k.
+Proof. exact run_ops_reader. Qed.
+Print Assumptions C10_partial_reader_unchanged.
+
+(* not vacuous: two creates, one =/, a flag and an exclusion in class 2 on the boot registry *)
+Example C10_history_on_boot : exists R', run_ops 2%N ex_ops (r_boot tt) = Some R' /\
+  forall k o, nth_error (objs (r_boot tt)) k = Some o -> (ocls o = 0%N \/ ocls o = 1%N) -> same_beh (r_boot tt) R' k.
+Proof. exact history_on_boot. Qed.
+
+(* the guard is necessary: every other hypothesis of C10_partial_core_rules_unchanged holds, the conclusion fails *)
+Theorem C10_isolation_without_guard_refuted :
+  exists c ops R' k o, c <> 0%N /\ run_ops c ops (r_boot tt) = Some R' /\ reg_ok (r_boot tt) /\
+    closedb (r_boot tt) [0%N] = true /\ guardsb [0%N] c ops (r_boot tt) = false /\
+    nth_error (objs (r_boot tt)) k = Some o /\ ocls o = 0%N /\ ~ same_beh (r_boot tt) R' k.
+Proof. exact isolation_without_guard_refuted. Qed.
+Print Assumptions C10_isolation_without_guard_refuted.
